@@ -80,3 +80,31 @@ def compare(ctx: Ctx, cases, gate: Sequence[str], advisory: Sequence[str], name:
             if i.get(f) != m.get(f):
                 ctx.advise({"field": f, "e": T.to_json(c["e"]), "rc": c["rc"], "impl": i.get(f), "model": m.get(f)})
     ctx.coverage.setdefault("correspondence", {})[name] = {"lines": sum(1 for c in cases if "model" in c), "disagreements": n_diff}
+
+
+def disagreeing(cases) -> List[Any]:
+    """expressions on which implementation and model differ (in error class or a gated field), smallest first"""
+    out, seen = [], set()
+    for c in cases:
+        if "model" not in c:
+            continue
+        i, m = c["impl"], c["model"]
+        if ("err" in i) != ("err" in m) or i.get("err") != m.get("err") or i.get("fulfilled") != m.get("fulfilled") or i.get("conditional") != m.get("conditional"):
+            k = repr(c["e"])
+            if k not in seen:
+                seen.add(k)
+                out.append(c["e"])
+    return sorted(out, key=lambda e: len(T.leaves(e)))
+
+
+def contexts_around(e) -> List[Any]:
+    """the failing-input search when the correspondence breaks: the expression on which code and model differ, put under every operator next to
+    a requirement key, a hint and a format constraint (either side) -- the places where a property about validity / outcomes can start to fail"""
+    out = [e]
+    for other in (("cond", "2"), ("cond", "502"), ("cond", "902"), ("cond", "3")):
+        for op in (T.OR, T.XOR, T.AND, T.THEN):
+            for t in ((op, e, other), (op, other, e)):
+                if E.well_formed(t):
+                    out.append(t)
+    return out
+
